@@ -475,7 +475,7 @@ macro_rules! group_impl {
                         let mut ctx = Wnaf::new();
                         let mut outs = vec![];
                         for ins in split_list(a[0]) {
-                            let p: Vec<&str> = ins.split(',').collect();
+                            let p: Vec<&str> = ins.split(':').collect();
                             match (p[0], p.len()) {
                                 ("bs", 4) => {
                                     let b = parse_jac(p[1])?;
